@@ -27,10 +27,10 @@ def slot_of(e):
     """identify a per-player bound slot: ('arr', var, index) for regs[k]; ('var', id) for reg_one / *reg_one"""
     e = strip_refs(e)
     if e[0] == 'cidx':
-        b = strip_refs(e[1])
+        b = norm(e[1])
         return ('arr', b, e[2])
     if e[0] == 'index' and e[2][0] == 'const':
-        return ('arr', strip_refs(e[1]), int(e[2][1]))
+        return ('arr', norm(e[1]), int(e[2][1]))
     if e[0] in ('var', 'upvar'):
         return ('cell', e)
     return None
@@ -190,7 +190,7 @@ def run(ctx):
             upd = False
             # direct assignment or call result stored to the slot, or a store through an iter_mut over the array
             for bi, st, pl, rhs in q.stores(f):
-                if bi in L.body and q.find_sub(pl, lambda s: s == base) is not None:
+                if bi in L.body and q.find_sub(norm(pl), lambda s: s == base or norm(s) == base) is not None:
                     inner = f.loop_of(bi)
                     anchor = inner[0] if inner and inner[0] != L.header else bi
                     si_ = f.blocks[bi]['stmts'].index(st) if st in f.blocks[bi]['stmts'] else 0
@@ -211,7 +211,14 @@ def run(ctx):
         # ---------------- O4
         rule = 'C09.O4-threshold-non-interference'
         uses = threshold_uses(f, thr)
-        bad = [(bi, k, facts.show(e)[:80]) for bi, k, e in uses if not (k in ('switch', 'assign') and bi == tb)]
+        def is_the_test(e):
+            # the exit comparison itself, wherever it is evaluated (e.g. in a block of an inlined predicate helper)
+            cm = facts.cmp_of(strip_refs(e))
+            if cm is None:
+                return False
+            ca, cb_ = norm(cond['a']), norm(cond['b'])
+            return (cm[0] == 'Lt' and norm(cm[1]) == ca and norm(cm[2]) == cb_) or (cm[0] == 'Gt' and norm(cm[1]) == cb_ and norm(cm[2]) == ca)
+        bad = [(bi, k, facts.show(e)[:80]) for bi, k, e in uses if not (k in ('switch', 'assign') and (bi == tb or is_the_test(e)))]
         ctx.verdict(not bad and bool(uses), rule, '%s:%s' % (rule, name),
                     'the threshold is read by the exit comparison and by nothing else in the loop function', f.where(tb),
                     '%d use(s); other uses: %s' % (len(uses), bad), breaks='the threshold changes what an iteration computes, so (r, N) and (0, t*) runs differ')
